@@ -1740,6 +1740,13 @@ func generateScenarios(prop string, seed uint64, n int, adv bool) []*scenario {
 			}
 			sc.Features = append(fs, "rolling", "hook-fails-for-one-revision-"+h2.BadKind)
 			out = append(out, sc)
+		case prop == "C09" && i%6 == 3:
+			// two rolling child kinds: a revision's record has one claim group per kind
+			sc := g.rollout(i, s, true)
+			for tries := 0; tries < 80 && !(sc.hasFeature("two-rolling-kinds") && !sc.Ctl.GenSelector && sc.Ctl.ParentNamespaced); tries++ {
+				sc = g.rollout(i, s, true)
+			}
+			out = append(out, sc)
 		case prop == "C09" && i%6 == 5:
 			// the parent is deleted in the middle of a rollout while a finalize hook keeps the children
 			sc := g.rolloutFinalize(i, s)
